@@ -70,6 +70,9 @@ pub fn run(r: &mut Runner) {
             }
         }
     }
+    // exp table strata incl. the ties of the table-index rounding, and linear ladders over the O(1) range
+    xs.extend(crate::props::c14::exp_alphabet(true).into_iter().step_by(if quick { 3 } else { 1 }));
+    xs.extend(crate::fx::linear_ladder(1, 1024, 128.0, true));
     xs.push([0.0, 0.0]);
     xs.push([-0.0, 0.0]);
     dedup(&mut xs);
@@ -87,8 +90,8 @@ pub fn run(r: &mut Runner) {
     });
     // ---- binary entry points on the multiplication plan (mantissa-rich) and the addition plan (exponent-rich)
     let mut p = crate::props::c04::plan(quick);
-    p.ua = p.ua.into_iter().step_by(if quick { 4 } else { 2 }).collect();
-    p.ub = p.ub.into_iter().step_by(if quick { 4 } else { 2 }).collect();
+    p.ua = p.ua.into_iter().step_by(if quick { 4 } else { 7 }).collect();
+    p.ub = p.ub.into_iter().step_by(if quick { 4 } else { 7 }).collect();
     p.emin = -1022;
     p.emax = 1022;
     if !quick {
